@@ -106,7 +106,51 @@ def gen_cases(rng, tier):
                 case.append("-")
             case.append(rng.choice(CALL_IDS).encode().hex())
         cases.append(case)
+    # the request side of "every outgoing message carries a Content-Length equal to its body size": an INVITE (the application had put a
+    # Content-Length of its own, or none) and the ACKs the transaction makes for a failure response and its retransmissions
+    k = 0
+    for rel in (0, 1):
+        for appcl in ("", "17", "5", "0,9"):
+            for arrs in ("700:486:a", "700:404:a,900:404:a,5000:404:a", "300:180:e,700:603:e"):
+                cases.append(["q%d" % k, "c09", "Q", "inv", str(rel), arrs, "60000", "", "", ",".join("d" for _ in arrs.split(",")), "", "", "", "", appcl]); k += 1
     return cases
+
+
+def model_case(case, impl):
+    if case[2] == "Q":
+        # the model run of the response side has nothing to say about these: a fixed valid response case keeps the driver's input well-formed
+        return [case[0], "c09", "D", addr(V4[0], 5060), "UDP|4|%d|%s|5060|branch=z9hG4bK1" % (ipnum(V4[0]), V4[0]), "200", "-", "-", "-", "-"]
+    return case
+
+
+def accepts(case, impl, model):
+    if case[2] == "Q":
+        return True
+    return impl == model
+
+
+def _q_oracle(case, impl):
+    if "PANIC" in impl:
+        return ["panic: " + impl[:300]]
+    msgs = []
+    for p in impl.split("\t")[1:]:
+        kind, _, hexs = p.partition(":")
+        f = {}
+        for kv in bytes.fromhex(hexs).decode("utf-8", "replace").split("||"):
+            a, _, b = kv.partition("=")
+            f[a] = b
+        msgs.append((kind, f))
+    if not any(k == "ACK" for k, _ in msgs) and "486" + "603" + "404":
+        if not any(k == "INVITE" for k, _ in msgs):
+            return ["no INVITE on the wire: " + impl[:200]]
+    if not any(k == "ACK" for k, _ in msgs):
+        return ["no ACK on the wire for the failure response"]
+    for kind, f in msgs:
+        vals = [x.split(":", 1)[1].strip() for x in (f.get("content-length", "") + "&&" + f.get("l", "")).split("&&") if x]
+        if vals != [f.get("bodylen", "?")]:
+            return ["the %s on the wire (%s) carries Content-Length values %r, its body has %s bytes: exactly one Content-Length equal to the body size expected" % (
+                kind, f.get("line", ""), vals, f.get("bodylen"))]
+    return []
 
 
 CALL_IDS = ["a84b/4c76+e667:10@[2001:db8::10]", "{f81d4fae-7dec-11d0-a765-00a0c91e6bf6}@pc33.example.com", "x(1)<y>?\"z\"\\w@host", "a:b", "[x]", "f81d4fae%7dec@h_1.~*'!", "()<>:\\\"/[]?{}"]
@@ -139,6 +183,8 @@ def _reasons():
 
 def oracle(case, impl):
     """RFC 3261 8.2.6.2 / 18.2.1 / 18.2.2 and RFC 3581 applied to the raw response, independent of the model"""
+    if case[2] == "Q":
+        return _q_oracle(case, impl)
     if "PANIC" in impl:
         return ["panic: " + impl[:300]]
     if not impl.startswith("dest="):
@@ -224,6 +270,8 @@ def oracle(case, impl):
 
 
 def nontrivial(case, impl):
+    if case[2] == "Q":
+        return "\t".join(case[2:])
     return "\t".join(case[2:]) if impl.startswith("dest=") else None
 
 
@@ -231,6 +279,9 @@ def distribution(cases, impl):
     import collections
     h = collections.Counter()
     for c in cases:
+        if c[2] == "Q":
+            h["requests (INVITE + ACKs)"] += 1
+            continue
         top = c[4].split("~")[0]
         h["%s vias=%d maddr=%s rport=%s" % (c[2], len(c[4].split("~")), "maddr=" in top, "rport" in top)] += 1
     return dict(h)
